@@ -98,7 +98,7 @@ def build(variant: str = 'plain', quiet: bool = True) -> Path:
         # drop stale builds of this variant (disk is limited)
         olds = sorted((d for d in BUILD_ROOT.glob(f'{variant}-*') if d != out),
                       key=lambda d: d.stat().st_mtime)
-        for old in olds[:-2]:   # keep the two most recent other builds (clean tree + one patched)
+        for old in olds[:-8]:   # keep a few recent other builds (clean tree + patched copies other runs may be using)
             shutil.rmtree(old, ignore_errors=True)
         obj = out / 'obj'
         obj.mkdir(parents=True)
